@@ -6,7 +6,8 @@ Generated/C19Tables.lean is re-emitted from the current source on every run:
   hexVertexCount    `np.zeros(6, dtype=complex)` there
   circleVertexCount `num_vertexes = 12` in Circle._get_vertex_positions
   sec3Pick          which vertices of which sector hexagon make up the 3-sector cell
-                    (`aux = [sec1.vertices[[0, 1]], ...]` in Cell3Sec._get_vertex_positions)
+                    (`aux = [sec1.vertices[[0, 1]], ...]` in Cell3Sec._get_vertex_positions; the contiguous
+                    spelling `sec1.vertices[0:2]` with literal bounds inside the vertex count is the same list)
   sec3HexRotation   rotation of the three sector hexagons there
   ring1Deg/ring2Deg angles of the two rings of Cluster._calc_cell_positions_hexagon
   ring1Dist/ring2Dists  ring distances as (multiples of the radius, multiples of the height)
@@ -142,13 +143,26 @@ def gen_tables(repo):
                 raise TranslateError('aux is not a list literal')
             pick = []
             for e in n.value.elts:
-                # secK.vertices[[i, j, ..]]
+                # secK.vertices[[i, j, ..]]  or the contiguous spelling  secK.vertices[a:b]  (literal 0 <= a <= b
+                # <= number of hexagon vertices, no step): on an array of that many elements the slice selects
+                # exactly the positions a, a+1, .., b-1 (nothing is clamped), i.e. the same index list
                 if not (isinstance(e, ast.Subscript) and isinstance(e.value, ast.Attribute) and e.value.attr == 'vertices'
                         and isinstance(e.value.value, ast.Name) and e.value.value.id in ('sec1', 'sec2', 'sec3')
-                        and isinstance(e.slice, ast.List)):
-                    raise TranslateError('aux element is not secK.vertices[[..]]')
+                        and isinstance(e.slice, (ast.List, ast.Slice))):
+                    raise TranslateError('aux element is not secK.vertices[[..]] / secK.vertices[a:b]')
                 idx = []
-                for i in e.slice.elts:
+                if isinstance(e.slice, ast.Slice):
+                    lo, hi = e.slice.lower, e.slice.upper
+                    if e.slice.step is not None or hi is None:
+                        raise TranslateError('aux slice with a step / without an upper bound')
+                    lo = 0 if lo is None else lo.value if (isinstance(lo, ast.Constant) and isinstance(lo.value, int)
+                                                           and not isinstance(lo.value, bool)) else None
+                    hi = hi.value if (isinstance(hi, ast.Constant) and isinstance(hi.value, int)
+                                      and not isinstance(hi.value, bool)) else None
+                    if lo is None or hi is None or not 0 <= lo <= hi <= hex_count:
+                        raise TranslateError('aux slice bounds are not literals within the hexagon vertex count')
+                    idx = list(range(lo, hi))
+                for i in (e.slice.elts if isinstance(e.slice, ast.List) else []):
                     if not (isinstance(i, ast.Constant) and isinstance(i.value, int) and i.value >= 0):
                         raise TranslateError('aux index')
                     idx.append(i.value)
